@@ -463,7 +463,10 @@ pub fn run_mem_build(case: &MemBuildCase) -> MemBuildRun {
             }
         };
         run.after_new = alloc::live() - base.live;
-        let bound = build_bound(case.registry, std::cmp::max(fam.fanout, fam.leaf_fan), fam.max_key_len(), run.after_new);
+        // prologue bit 4: two keys far longer than all others arrive late
+        // (half way and at three quarters); the bound is the one for that length
+        let late_long: u32 = if case.prologue & 16 != 0 { 320 } else { 0 };
+        let bound = build_bound(case.registry, std::cmp::max(fam.fanout, fam.leaf_fan), fam.max_key_len() + late_long, run.after_new);
         run.bound = bound;
         if case.bulk {
             // the slice is harness memory allocated before the baseline; the
@@ -601,6 +604,21 @@ pub fn run_mem_build(case: &MemBuildCase) -> MemBuildRun {
                 }
                 // (whether it really was refused is C06's business)
                 let _ = r;
+            }
+            if late_long > 0 && !case.bulk && (i == fam.n / 2 || i == fam.n / 4 * 3) {
+                // the current key followed by 200 / 300 NUL bytes: greater than
+                // the current key, smaller than the next one
+                let n = key.len();
+                key.resize(n + if i == fam.n / 2 { 200 } else { 300 }, 0);
+                let r = match &mut b {
+                    AnyBuilder::Map(m) => m.insert(&key, 3),
+                    AnyBuilder::Set(s) => s.insert(&key),
+                    AnyBuilder::Raw(r) => r.add(&key),
+                };
+                key.truncate(n);
+                if r.is_err() {
+                    run.refused += 1;
+                }
             }
             if case.reject_run > 0 && i == fam.n / 2 {
                 let mut k2: Vec<u8> = Vec::with_capacity(key.capacity());
@@ -1288,6 +1306,7 @@ pub struct BigRun {
     pub bytes: u64,
     pub short: u64,
     pub intr: u64,
+    pub zero: u64,
 }
 
 /// Stream a large generated family through a real builder into a simulated
@@ -1331,7 +1350,7 @@ pub fn run_big_roundtrip(pid: &str, case: &MemBuildCase) -> BigRun {
         }
         None
     }));
-    let mut out = BigRun { violation: None, digest: 0, bytes: 0, short: 0, intr: 0 };
+    let mut out = BigRun { violation: None, digest: 0, bytes: 0, short: 0, intr: 0, zero: 0 };
     match r {
         Err(p) => {
             out.violation = viol(&format!("{}.panic", pid), panic_msg(p));
@@ -1423,6 +1442,9 @@ pub fn run_big_fault(case: &MemBuildCase, fault_write_at: Option<usize>) -> BigR
     let mut plan = Plan::clean();
     match fault_write_at {
         None => plan.fault_flush = Some((0, ErrKind::Other)),
+        // `rejects` = 1 selects: Ok(0) at the first write of 3..=7 bytes at
+        // or after that index (in a set: an address more than 64 KiB back)
+        Some(i) if case.rejects == 1 => plan.fault_write_sized = Some((i, 3, 7)),
         Some(i) => plan.fault_write = Some((i, WStep::Err(ErrKind::StorageFull))),
     }
     let mut sink = SinkState::new(plan, Decider::Random { shape: case.shape, rng: Rng::new(fam.seed ^ 0x99) }, &[]);
@@ -1433,8 +1455,14 @@ pub fn run_big_fault(case: &MemBuildCase, fault_write_at: Option<usize>) -> BigR
     let (tap, _t) = Tap::new(sink.clone(), case.bufcap);
     let front = if case.map { Front::Map } else { Front::Set };
     let mut key = Vec::new();
-    let mut out = BigRun { violation: None, digest: 0, bytes: 0, short: 0, intr: 0 };
-    let want_kind = if fault_write_at.is_none() { std::io::ErrorKind::Other } else { std::io::ErrorKind::StorageFull };
+    let mut out = BigRun { violation: None, digest: 0, bytes: 0, short: 0, intr: 0, zero: 0 };
+    let want_kind = if fault_write_at.is_none() {
+        std::io::ErrorKind::Other
+    } else if case.rejects == 1 {
+        std::io::ErrorKind::WriteZero
+    } else {
+        std::io::ErrorKind::StorageFull
+    };
     let r = catch_unwind(AssertUnwindSafe(|| -> Option<Violation> {
         let mut b = match AnyBuilder::create(front, tap, case.registry) {
             Ok(b) => b,
@@ -1493,6 +1521,7 @@ pub fn run_big_fault(case: &MemBuildCase, fault_write_at: Option<usize>) -> BigR
     out.bytes = st.total_accepted;
     out.short = st.fired.short;
     out.intr = st.fired.intr;
+    out.zero = st.fired.zero;
     let mut d = Digest::new();
     d.u64(out.bytes);
     d.u64(st.ev_idx);
@@ -1578,7 +1607,7 @@ fn delta_fit(target: u64, seed: u64) -> Option<(u64, u64, Vec<u8>)> {
 }
 
 pub fn run_delta_boundary(case: &DeltaCase) -> BigRun {
-    let mut out = BigRun { violation: None, digest: 0, bytes: 0, short: 0, intr: 0 };
+    let mut out = BigRun { violation: None, digest: 0, bytes: 0, short: 0, intr: 0, zero: 0 };
     let r = catch_unwind(AssertUnwindSafe(|| -> Option<Violation> {
         let (n, pad, bytes) = match delta_fit(case.target, case.seed) {
             Some(x) => x,
